@@ -237,6 +237,16 @@ def run(ctx):
                 for vk in range(K):
                     kwcases.append((tuple(base), [(kw, vk)]))
             kwcases.append((tuple(base), [("zzz_unknown", 0)]))
+            # two keywords in one call, in both orders: each value is checked against its OWN keyword's type
+            if len(s["kws"]) >= 2:
+                tixk = d["sig_types"].index
+                for (ka_, ta), (kb, tb) in itertools.permutations(s["kws"][:4], 2):
+                    good_a = [k for k in range(K) if d["isinstance"][k][tixk(ta)]]
+                    if not good_a:
+                        continue
+                    for vk in range(K):
+                        kwcases.append((tuple(base), [(ka_, good_a[0]), (kb, vk)]))
+                        kwcases.append((tuple(base), [(kb, vk), (ka_, good_a[0])]))
         rej_cases.append((name, [tuple(kinds[k] for k in t) for t in ts],
                           [(tuple(kinds[k] for k in t), [(kw, kinds[v]) for kw, v in kws]) for t, kws in kwcases]))
         for t in ts:
